@@ -498,8 +498,15 @@ impl World {
         }
         match t {
             Tid::Ctx => {
-                if pending && !self.wire.borrow().write_blocked && self.phase() == Phase::Running {
-                    // the select loop only returns Pending after both branches did: queue drained
+                if pending
+                    && !self.wire.borrow().write_blocked
+                    && self.phase() == Phase::Running
+                    && !self.ctx.flagged()
+                {
+                    // the select loop only returns Pending after both branches did: queue drained.
+                    // (Not assumed when the context task woke itself or was woken during its own
+                    // poll - e.g. a cooperative yield with requests still queued: it will be polled
+                    // again and the question is asked again then.)
                     self.maybe_msgs = false;
                 }
             }
